@@ -20,20 +20,26 @@ for gran in (0, 1, 2, 4):
                     link=["toolutils.c", "as_endian.c", "bpemu.c", "addrspace.c"], unwind=4, timeout=600, cflags=ERRNO, functions=["ProcessSingle"], object_bits=12, flags=["--slice-formula"], split=4,
                     noreach=(gran == 0),
                     bounded="input = one data record (any CPU id, segment, address, length; granularity %d%s) + end record with a creator string of at most 2 characters" % (gran, " = invalid, must be rejected" if gran == 0 else "")))
+GROUPS.append(G("pl_main_totals", "harness/C07/h_plist.c", "h_main_totals", enforce=[], dfcc=False, drop_unused=True,
+                link=["toolutils.c", "as_endian.c", "bpemu.c", "addrspace.c"], unwind=4, unwindset=["@plist_main:plist_main:%d:13" % i for i in range(6)], timeout=600, cflags=ERRNO,
+                functions=["main", "ProcessSingle"], object_bits=12, flags=["--slice-formula"], split=4,
+                bounded="one input file holding one byte-granular data record + end record; option parsing and initialisers are oracles"))
 TRUSTED_BASE = ["stubs/gfile.c: ghost stdio model (position/length exact, one witness byte, short reads/failed writes as oracle)",
                 "message catalogue and printf/fprintf replaced by no-op monitors", "exit() monitor"]
 ASSUMPTIONS = ["files are shorter than 2 GiB (long is 64 bit; positions handled as long)"]
-NOT_COVERED = []
+NOT_COVERED = ["pbind OpenTarget/CloseTarget (creator record)", "entry-address and relocation records", "CMD_FilterList option parsing", "files with more than one data record (record loops unwound)"]
 EXPLANATION = ""
 
 MANIFEST = dict(
     category="proof",
     text="toolutils.c record helpers (ReadRecordHeader/WriteRecordHeader field-by-field against the file bytes, SkipRecord never moves "
-         "backwards, FilterOK with a loop contract over the filter list) and pbind.c's ProcessFile (a passing data record is appended with "
+         "backwards, FilterOK with a loop contract over the filter list), pbind.c's ProcessFile (a passing data record is appended with "
          "unchanged header, address, length and payload -- copy loop closed by a loop contract, so any payload length; a filtered record "
-         "writes nothing; the input is consumed exactly to the next record) are verified on the real code over a ghost stdio model with a "
-         "witness byte.",
-    note="Bounded: pbind input = one data record + end record (record loop unwound 3x); the -f decision is an oracle there. pbind obligations "
-         "use CBMC's non-DFCC loop-contract instrumentation (DFCC made them intractable). Not under contract yet: plist.c, pbind OpenTarget/"
-         "CloseTarget, entry records. Trusted: stubs/gfile.c (exact position/length, one witness byte, pass-through cell), message stubs.",
+         "writes nothing; the input is consumed exactly to the next record) and plist.c (ProcessSingle prints one line per record with the CPU "
+         "family of its CPU id, its segment name, true start, byte length and last address = start + length/granularity - 1, adds the length to that "
+         "segment's total only, rejects invalid segment/granularity/length as format errors; main prints each total through a numeric conversion) "
+         "are verified on the real code over a ghost stdio model with a witness byte.",
+    note="Bounded: pbind and plist input = one data record + end record (record loops unwound 3x); the -f decision is an oracle in pbind's harness; plist's "
+         "family table lookup and main's option parsing are oracles. pbind/plist obligations use CBMC's non-DFCC instrumentation. Not under contract: pbind "
+         "OpenTarget/CloseTarget, entry records, relocation records. Trusted: stubs/gfile.c (exact position/length, one witness byte, pass-through cell), printf monitors.",
 )
